@@ -31,6 +31,7 @@ def diagram_family(draw, count=2, min_size=0, max_size=5, allow_diag=True, allow
     Returns {"mode", "dgms": [[[b, d], ...], ...]} with d >= b (d > b unless allow_diag)."""
     mode = draw(st.sampled_from(modes))
     dgms = []
+    scale = 1.0
     if mode in ("lattice", "mixed"):
         L = draw(st.integers(2, lattice_max))
         k = draw(st.sampled_from(SCALE_EXPONENTS)) if scales else 0
@@ -68,7 +69,7 @@ def diagram_family(draw, count=2, min_size=0, max_size=5, allow_diag=True, allow
                     d = math.nextafter(b, math.inf)
                 pts.append([b, d])
             dgms.append(pts)
-    return {"mode": mode, "dgms": dgms}
+    return {"mode": mode, "scale": scale, "dgms": dgms}
 
 
 def permutation_of(n):
@@ -77,3 +78,21 @@ def permutation_of(n):
 
 def apply_perm(seq, perm):
     return [seq[i] for i in perm]
+
+
+def valid_family(fam, allow_diag=True, min_size=0):
+    """Domain predicate used by the shrinker (which edits the JSON blindly)."""
+    try:
+        if not (fam["scale"] > 0) or fam["mode"] not in ("lattice", "mixed", "float"):
+            return False
+        for d in fam["dgms"]:
+            if len(d) < min_size:
+                return False
+            for p in d:
+                if len(p) != 2 or not all(isinstance(x, (int, float)) and math.isfinite(x) for x in p):
+                    return False
+                if p[1] < p[0] or (not allow_diag and p[1] <= p[0]):
+                    return False
+    except Exception:
+        return False
+    return True
